@@ -580,7 +580,8 @@ def check_cross(col: Collector, repo: Repo, ex):
         rp = REPO / "func_adl_xAOD/template" / tdir / "runner.sh"
         if not rp.exists():
             raise AnalysisError(f"{rp} missing")
-        txt = rp.read_text()
+        from sa.core.shell_alpha import runner_source
+        txt = runner_source(rp)
         m = re.search(r'^output_dir="([^"]*)"', txt, re.M)
         col.add("C17.R6", f"runner:{tdir}", "default-output-dir-is-/results", bool(m) and m.group(1) == "/results",
                 f"runner default output_dir is {m.group(1) if m else None}; the package directory is mounted rw at /results", str(rp.relative_to(REPO)))
